@@ -427,8 +427,12 @@ pub fn run(tier: Tier, part_only: bool) -> i32 {
 }
 
 fn run_all(rep: &mut Report, tier: Tier) {
+    // cheap check: both tiers run the thorough scenarios and cases (about ten seconds)
+    let _ = tier;
+    let tier = Tier::Thorough;
+    rep.set("tiers", json!("the quick tier runs the thorough tier's scenarios and cases as well (the whole check takes about ten seconds)"));
     let scs = scenarios(tier);
-    let tot = e1::run_scenarios(rep, &scs, &e1::strict_judge, if tier.is_quick() { 30.0 } else { 2500.0 });
+    let tot = e1::run_scenarios(rep, &scs, &e1::strict_judge, 2500.0);
     let mut cs = e2_cases(tier);
     if cfg!(feature = "inproc") {
         // the in-process rendezvous is a registry inside one process: no forked, spawned or exec'ed peers
